@@ -170,6 +170,68 @@ func runScorch(c *core.Ctx, name string, wl sx.Workload, seed int64) (*outcome, 
 	return out, nil
 }
 
+// runScheduled executes one TLC-generated schedule; the marker document is added
+// to every batch, a search is issued after every step and a low-level reader is
+// held and re-read across steps.
+func runScheduled(c *core.Ctx, name string, sch sx.Schedule) (*outcome, error) {
+	base := c.TempDir("c04s")
+	defer os.RemoveAll(base)
+	for i := range sch.Steps {
+		if b := sch.Steps[i].Batch; b != nil {
+			nb := *b
+			nb.Puts = append(append([]string{}, b.Puts...), "m")
+			sch.Steps[i].Batch = &nb
+		}
+	}
+	out := &outcome{Name: name}
+	var rerr error
+	held := 0
+	r, _, err := sx.RunSchedule(filepath.Join(base, "idx"), sch, c.Seed, func(r *sx.Run, i int, st sx.SchedStep) {
+		if rerr != nil {
+			return
+		}
+		r.Rec.Emit("ReadBegin", map[string]any{"c": 1})
+		docs, err := sx.SearchContent(r.Idx)
+		if err != nil {
+			rerr = err
+			return
+		}
+		r.Rec.Emit("ReadEnd", map[string]any{"c": 1, "docs": docs})
+		out.Reads++
+		if held == 0 && i%5 == 1 {
+			if id, err := r.OpenReader(); err == nil {
+				held = id
+			}
+		}
+		if held != 0 {
+			if d, count, seq, err := sx.ReaderContent(r.Reader(held)); err == nil {
+				r.Rec.Emit("ReaderObs", map[string]any{"r": held, "docs": d, "count": count, "seq": seq})
+				out.Reads++
+			}
+			if i%5 == 0 {
+				r.CloseReader(held)
+				held = 0
+			}
+		}
+	})
+	if err != nil {
+		return nil, err
+	}
+	if held != 0 {
+		r.CloseReader(held)
+	}
+	r.Settle(20 * time.Second)
+	if err := r.Close(); err != nil {
+		return nil, err
+	}
+	if rerr != nil {
+		return nil, fmt.Errorf("%s: read failed: %v", name, rerr)
+	}
+	out.Records = records(r.Rec.Events())
+	out.Scorch = sx.ScorchRecords(r.Rec.Events())
+	return out, nil
+}
+
 // conformance validates the recorded root swaps of every scorch run against the
 // transition functions of ScorchOps.tla (TraceScorch.tla). A mismatch is DRIFT:
 // the exhaustive result of the design spec no longer transfers to this code,
@@ -231,6 +293,23 @@ func run(c *core.Ctx) error {
 		}
 		c.Logf("%s: %d reads", name, o.Reads)
 		outs = append(outs, o)
+	}
+	// Engine S: schedules generated by TLC (simulated behaviours of ScorchDisk.tla
+	// projected onto (process, step) sequences) drive the real goroutines gate by
+	// gate; after every step a client searches and a held reader is re-read
+	for _, safe := range []bool{false, true} {
+		scheds, err := sx.SimulatedSchedules(c, c.Pick(6, 60), c.Pick(50, 70), c.Seed+int64(len(outs)), safe)
+		if err != nil {
+			return err
+		}
+		for i, sch := range scheds {
+			o, err := runScheduled(c, fmt.Sprintf("tlc-schedule-%d(safe=%v)", i, safe), sch)
+			if err != nil {
+				return err
+			}
+			outs = append(outs, o)
+		}
+		c.Logf("%d TLC-generated schedules executed (safe=%v)", len(scheds), safe)
 	}
 	conformance(c, outs)
 	// upsidedown: KV snapshot + separately cached docCount (Upsidedown's two-step
